@@ -54,6 +54,13 @@ package lexer
 //@   ensures b.lb == old(b.fw)
 //@   ensures result == posAt(b, old(b.lb))
 
+// C20 / C13: the scanner reads the source it is given - all of it, from its first byte, under the given name - so the
+// positions it reports are positions in that source
+//@ import "github.com/moorara/algo/lexer/input"
+//@ func New(filename string, src io.Reader) (*Lexer, error)
+//@   callsite input.New requires @reads-the-given-source arg0 == filename && arg1 == src && arg2 > 0
+//@   ensures @lexer-or-error (result1 == nil) == (result0 != nil)
+
 // ---- the scanner ----
 
 //@ func advanceDFA(state int, r rune) int
